@@ -1,7 +1,7 @@
 (** Facts about LegacyDec arithmetic: rounding bounds, monotonicity, and that
     Power as the SDK executes it (square-and-multiply with banker's rounding at
     every multiplication) is non-increasing in the exponent for bases in [0,1]. *)
-From Coq Require Import ZArith Lia Psatz Bool.
+From Coq Require Import ZArith Lia Bool.
 From Canto Require Import Lib.SdkDec.
 Open Scope Z_scope.
 Import SdkDec.
